@@ -74,6 +74,10 @@ class CmaStrategy(HoloPyObject):
                  parallel='auto'):
         self.npixels = npixels
         self.popsize = popsize
+        # kept so that a saved strategy reloads with the same settings
+        self.resample_pixels = resample_pixels
+        self.parent_fraction = parent_fraction
+        self.weight_function = weight_function
         if resample_pixels:
             self.new_pixels = self.npixels
         else:
